@@ -3,6 +3,7 @@ import BlockModes.Impl.CfbBuf
 import BlockModes.Impl.Ctr
 import BlockModes.Impl.Belt
 import BlockModes.Impl.MemCts
+import BlockModes.Glue.Wrapper
 /-
   Impl/Chk.lean — *checked* mirrors of the remaining places in /repo whose index or integer arithmetic could
   panic (C13's "index arithmetic that must stay in range for all lengths", "wrapping (never overflowing) counter
@@ -112,5 +113,19 @@ def ctrChunk? (block : Bytes) (cs i : Nat) : Option Bytes :=
   match slice? block (cs * i) block.length with
   | none => none
   | some rest => slice? rest 0 cs
+
+/-! ### seeking and position reporting (cipher `stream/wrapper.rs:176-202`, `stream.rs` `impl_seek_num!`) -/
+
+/-- `try_current_pos::<SN>()`: `SN::from_block_byte(block, pos, bs)` starts with `debug_assert!(byte != 0)`; everything
+    else is `checked_*` arithmetic that yields `Err(OverflowError)`.  Outer `none` = panic, inner `none` = `Err`. -/
+def currentPos? {σ : Type} (K : Glue.Core σ) (s : Glue.Wr σ) (snMax : Nat) : Option (Option Nat) :=
+  if s.pos = 0 then none else some (s.currentPos K snMax)
+
+/-- `try_seek::<SN>(p)` for a non-negative `p`: `into_block_byte` cannot fail except by `T::try_from` (an `Err`), and
+    the wrapper then asserts `byte_pos < BlockSize` (true for every non-negative `p`, since `byte_pos = p % bs`). -/
+def seek? {σ : Type} (K : Glue.Core σ) (s : Glue.Wr σ) (p : Nat) : Option (Bool × Glue.Wr σ) :=
+  if K.bs = 0 then none                                        -- `self % bs` with `bs = 0`
+  else if ¬ (p % K.bs < K.bs) then none                        -- assert!(byte_pos < T::BlockSize::U8)
+  else some (s.seek K p)
 
 end Impl.Chk
